@@ -120,6 +120,13 @@ def gen_case(rng):
                         idx=rng.randint(0, 255), addr=addr,
                         wkc=rng.choice([0, 1, 3, rng.randint(0, 0xffff)]),
                         writer=rng.random() < 0.4))
+    # identical datagrams in one frame (two tasks polling one register)
+    if len(out) >= 2 and rng.random() < 0.25:
+        i = rng.randrange(len(out) - 1)
+        j = rng.choice([len(out) - 1, rng.randrange(i + 1, len(out))])
+        out[j] = dict(out[i])
+        if rng.random() < 0.3 and len(out) >= 3:
+            out[rng.randrange(len(out))] = dict(out[i])
     return dict(sterile=sterile, dgs=out, index=rng.getrandbits(31),
                 ethertype=rng.choice([0x88A4, 0x3000, 0x5fff]))
 
